@@ -195,9 +195,10 @@ Proof. vm_compute. reflexivity. Qed.
 Print Assumptions c04_gen_not_given_is_default.
 
 (* flatten.rs: group / window bodies write the enclosing partition / frame back, relational arguments are
-   isolated from both (the policy c04_scope_is_lexical is about); an ungrouped aggregate ends the sort in effect *)
+   isolated from both (the policy c04_scope_is_lexical is about); an aggregate -- outside a group (8d54bf7) and
+   inside one (f809321) -- ends the sort in effect *)
 Theorem c04_gen_scope_policy :
-  scope_policy_eqb code_scope_policy flatten_policy && code_aggregate_ends_sort = true.
+  scope_policy_eqb code_scope_policy flatten_policy && code_aggregate_ends_sort && code_grouped_aggregate_ends_sort = true.
 Proof. vm_compute. reflexivity. Qed.
 Print Assumptions c04_gen_scope_policy.
 
